@@ -401,6 +401,35 @@ def _tb(x):
     return x != 0
 
 
+# ----------------------------------------------------------------------------- scipy.stats
+@model('scipy.stats.uniform.ppf')
+def _uniform_ppf(ex, st, args, kwargs, node):
+    """assumed: uniform.ppf(x, loc, scale) = loc + x*scale for 0 <= x <= 1 (scale >= 0)"""
+    x = args[0]
+    loc = kwargs.get('loc', args[1] if len(args) > 1 else 0.0)
+    scale = kwargs.get('scale', args[2] if len(args) > 2 else 1.0)
+    ex.oblige('safe.ppf_domain', st, ex.c.And(_ge0(x), _le1(x)), node)
+    return to_real(loc) + to_real(x) * to_real(scale)
+
+
+@model('scipy.stats.norm.ppf')
+def _norm_ppf(ex, st, args, kwargs, node):
+    """assumed: norm.ppf(x, loc, scale) = loc + scale*probit(x), probit uninterpreted (strictly increasing on
+    (0,1), probit(1/2) = 0, probit(1-x) = -probit(x): ground instances added per obligation)"""
+    x = args[0]
+    loc = kwargs.get('loc', args[1] if len(args) > 1 else 0.0)
+    scale = kwargs.get('scale', args[2] if len(args) > 2 else 1.0)
+    return to_real(loc) + to_real(scale) * ex.c.probit(x)
+
+
+def _ge0(x):
+    return x >= 0 if not is_sym(x) else to_real(x) >= 0
+
+
+def _le1(x):
+    return x <= 1 if not is_sym(x) else to_real(x) <= 1
+
+
 # ----------------------------------------------------------------------------- order / search
 @model('.searchsorted', 'numpy.searchsorted')
 def _searchsorted(ex, st, args, kwargs, node):
